@@ -31,12 +31,13 @@ def store (c : Cache) (reg : Nat) : List UInt8 → Cache
     let c' := if c.isIgnore reg then c
               else { vals := c.vals.wr reg v, sync := c.sync.wr reg (UInt8.ofNat Gen.SHADOW_CACHED) }
     store c' (reg + 1) vs
+/-- one step of the page invalidation: a CACHED entry becomes NOT_CACHED -/
+def dropStep (s : Mem) (i : Nat) : Mem :=
+  let a := Gen.REGFIFOADDRPTR + i
+  if s.rd a == UInt8.ofNat Gen.SHADOW_CACHED then s.wr a (UInt8.ofNat Gen.SHADOW_NOT_CACHED) else s
 /-- the page invalidation added to `sx127x_shadow_spi_write_register` for `reg == REGOPMODE` -/
 def dropPage (c : Cache) : Cache :=
-  let drop (s : Mem) (i : Nat) : Mem :=
-    let a := Gen.REGFIFOADDRPTR + i
-    if s.rd a == UInt8.ofNat Gen.SHADOW_CACHED then s.wr a (UInt8.ofNat Gen.SHADOW_NOT_CACHED) else s
-  { c with sync := (List.range (Gen.REGIRQFLAGS2 + 1 - Gen.REGFIFOADDRPTR)).foldl drop c.sync }
+  { c with sync := (List.range (Gen.REGIRQFLAGS2 + 1 - Gen.REGFIFOADDRPTR)).foldl dropStep c.sync }
 /-- length of the cached prefix of `[reg, reg+n)` (the loop at l.116-123), and its value -/
 def prefixLen (c : Cache) (reg : Nat) : Nat → Nat
   | 0 => 0
@@ -123,60 +124,74 @@ inductive Step (α : Type)
   | ub (u : UB)
 
 namespace Shadow
+/-- a plain bus read of `n` registers -/
+def busStep (w : World) (reg n : Nat) : Step UInt32 :=
+  let (r, w) := w.busRead reg n
+  .ok r w
+
+/-- the fill after a successful multi-byte read (l.134-137 with the fixes) -/
+def sreadFill (w1 : World) (reg n : Nat) (v : UInt32) : Step UInt32 :=
+  if reg + n > w1.cache.size then .ub .oobShadow
+  else .ok (.ok v) { w1 with cache := w1.cache.store reg ((List.range n).map (byteOf v n)) }
+
+def sreadMiss (w : World) (reg n : Nat) : Step UInt32 :=
+  match w.busRead reg n with
+  | (.error c, w1) => .ok (.error c) w1
+  | (.ok v, w1) => sreadFill w1 reg n v
+
+/-- number of `sync` entries the hit-test loop inspects: the cached prefix plus the first miss -/
+def probeEnd (k n : Nat) : Nat := if k < n then k + 1 else k
+
 /-- `sx127x_shadow_spi_read_registers` (l.107) -/
 def sread (cached : Bool) (w : World) (reg n : Nat) : Step UInt32 :=
-  if !cached then let (r, w) := w.busRead reg n; .ok r w else
+  if !cached then busStep w reg n else
   if reg ≥ w.cache.size then .ub .oobShadow else
-  if w.cache.isIgnore reg then let (r, w) := w.busRead reg n; .ok r w else
-  let k := w.cache.prefixLen reg n
+  if w.cache.isIgnore reg then busStep w reg n else
   -- the loop reads sync[reg+i] for i < n until the first miss
-  if reg + (if k < n then k + 1 else k) > w.cache.size then .ub .oobShadow else
-  if k = n then .ok (.ok (be32 (w.cache.vals.rds reg n))) w else
-  let (r, w) := w.busRead reg n
-  match r with
-  | .error c => .ok (.error c) w
-  | .ok v =>
-    if reg + n > w.cache.size then .ub .oobShadow else
-    .ok (.ok v) { w with cache := w.cache.store reg ((List.range n).map (byteOf v n)) }
+  if reg + probeEnd (w.cache.prefixLen reg n) n > w.cache.size then .ub .oobShadow else
+  if w.cache.prefixLen reg n = n then .ok (.ok (be32 (w.cache.vals.rds reg n))) w else
+  sreadMiss w reg n
+
+/-- a plain single-register bus read -/
+def busStep1 (w : World) (reg : Nat) : Step UInt8 :=
+  let (r, w) := w.busRead reg 1
+  .ok (r.map UInt32.toUInt8) w
+
+def rreadMiss (w : World) (reg : Nat) : Step UInt8 :=
+  match w.busRead reg 1 with
+  | (.error c, w1) => .ok (.error c) w1
+  | (.ok v, w1) => .ok (.ok v.toUInt8) { w1 with cache := { vals := w1.cache.vals.wr reg v.toUInt8, sync := w1.cache.sync.wr reg (UInt8.ofNat Gen.SHADOW_CACHED) } }
 
 /-- `sx127x_read_register` (l.174) -/
 def rread (cached : Bool) (w : World) (reg : Nat) : Step UInt8 :=
-  if !cached then
-    let (r, w) := w.busRead reg 1
-    .ok (r.map UInt32.toUInt8) w
-  else
+  if !cached then busStep1 w reg else
   if reg ≥ w.cache.size then .ub .oobShadow else
-  if w.cache.isIgnore reg then
-    let (r, w) := w.busRead reg 1
-    .ok (r.map UInt32.toUInt8) w
-  else if w.cache.isCached reg then .ok (.ok (w.cache.vals.rd reg)) w
-  else
-    let (r, w) := w.busRead reg 1
-    match r with
-    | .error c => .ok (.error c) w
-    | .ok v => .ok (.ok v.toUInt8) { w with cache := { vals := w.cache.vals.wr reg v.toUInt8, sync := w.cache.sync.wr reg (UInt8.ofNat Gen.SHADOW_CACHED) } }
+  if w.cache.isIgnore reg then busStep1 w reg else
+  if w.cache.isCached reg then .ok (.ok (w.cache.vals.rd reg)) w else
+  rreadMiss w reg
+
+/-- what `sx127x_shadow_spi_write_register` does to the cache after a successful transfer -/
+def swriteStore (w1 : World) (reg : Nat) (data : List UInt8) : Step Unit :=
+  let k := if reg = Gen.REGOPMODE then w1.cache.dropPage else w1.cache
+  if reg + data.length > k.size then .ub .oobShadow else
+  .ok (.ok ()) { w1 with cache := k.store reg data }
 
 /-- `sx127x_shadow_spi_write_register` (l.146, with the page invalidation) -/
 def swrite (cached : Bool) (w : World) (reg : Nat) (data : List UInt8) : Step Unit :=
-  let (r, w) := w.busWrite reg data
-  if !cached then .ok r w else
-  match r with
-  | .error c => .ok (.error c) w
-  | .ok () =>
-    let w := if reg = Gen.REGOPMODE then { w with cache := w.cache.dropPage } else w
-    if reg + data.length > w.cache.size then .ub .oobShadow else
-    .ok (.ok ()) { w with cache := w.cache.store reg data }
+  match w.busWrite reg data with
+  | (.error c, w1) => .ok (.error c) w1
+  | (.ok (), w1) => if !cached then .ok (.ok ()) w1 else swriteStore w1 reg data
+
+def bwriteStore (w1 : World) (reg : Nat) (data : List UInt8) : Step Unit :=
+  if reg = Gen.REGFIFO then .ok (.ok ()) w1 else
+  if reg + data.length > w1.cache.size then .ub .oobShadow else
+  .ok (.ok ()) { w1 with cache := w1.cache.store reg data }
 
 /-- `sx127x_shadow_spi_write_buffer` (l.158) -/
 def bwrite (cached : Bool) (w : World) (reg : Nat) (data : List UInt8) : Step Unit :=
-  let (r, w) := w.busWriteBuf reg data
-  if !cached then .ok r w else
-  match r with
-  | .error c => .ok (.error c) w
-  | .ok () =>
-    if reg = Gen.REGFIFO then .ok (.ok ()) w else
-    if reg + data.length > w.cache.size then .ub .oobShadow else
-    .ok (.ok ()) { w with cache := w.cache.store reg data }
+  match w.busWriteBuf reg data with
+  | (.error c, w1) => .ok (.error c) w1
+  | (.ok (), w1) => if !cached then .ok (.ok ()) w1 else bwriteStore w1 reg data
 end Shadow
 
 namespace Outcome
